@@ -67,7 +67,7 @@ def OpsImpl.renderForm (o : OpsImpl) (l r : Bool) (w : WCB) : Toks :=
     let values := o.fields.map fun f =>
       let fty := f.field.ty.toks
       ufcs (withRef fty l) (trait_ ++ angle (withRef fty r)) fn ++
-        paren (withRef (memberOf "self" f) l ++ "," :: withRef (memberOf "rhs" f) r)
+        paren (withRef (memberOf "self" f) l ++ "," :: withRef (memberOf "__rhs" f) r)
     let wheres := w.build fun ty =>
       let t := ty.toks
       match l, r with
@@ -76,20 +76,20 @@ def OpsImpl.renderForm (o : OpsImpl) (l r : Bool) (w : WCB) : Toks :=
       | false, true => "for" :: angle ["'__a"] ++ t ++ ":" :: trait_ ++ angle ("&" :: "'__a" :: t ++ "," :: "Output" :: "=" :: t)
       | false, false => t ++ ":" :: trait_ ++ angle (t ++ "," :: "Output" :: "=" :: t)
     implItem autoDerived implG (trait_ ++ angle rhsTy) selfTy wheres
-      (["type", "Output", "="] ++ this ++ [";", "fn", fn] ++ paren (["self", ",", "rhs", ":"] ++ rhsTy) ++
+      (["type", "Output", "="] ++ this ++ [";", "fn", fn] ++ paren (["self", ",", "__rhs", ":"] ++ rhsTy) ++
         ["->", "Self", "::", "Output"] ++ brace (o.name :: ctorArgs o.fieldsSrc values))
   | .assign _ =>
     let rhsTy := withRef this r
     let exprs := o.fields.map fun f =>
       let fty := f.field.ty.toks
       ufcs fty (trait_ ++ angle (withRef fty r)) fn ++
-        paren ("&" :: "mut" :: memberOf "self" f ++ "," :: withRef (memberOf "rhs" f) r)
+        paren ("&" :: "mut" :: memberOf "self" f ++ "," :: withRef (memberOf "__rhs" f) r)
     let wheres := w.build fun ty =>
       let t := ty.toks
       if r then "for" :: angle ["'__a"] ++ t ++ ":" :: trait_ ++ angle ("&" :: "'__a" :: t)
       else t ++ ":" :: trait_ ++ angle t
     implItem autoDerived implG (trait_ ++ angle rhsTy) this wheres
-      (["fn", fn] ++ paren (["&", "mut", "self", ",", "rhs", ":"] ++ rhsTy) ++ brace (termBy ";" exprs))
+      (["fn", fn] ++ paren (["&", "mut", "self", ",", "__rhs", ":"] ++ rhsTy) ++ brace (termBy ";" exprs))
   | .un _ =>
     let selfTy := withRef this l
     let values := o.fields.map fun f =>
@@ -146,28 +146,28 @@ def CloneImpl.render (c : CloneImpl) : Toks :=
     | .struct_ src fields =>
       let args := fields.map fun f => ufcs f.field.ty.toks tr "clone" ++ paren ("&" :: memberOf "self" f)
       let cfs := fields.map fun f =>
-        ufcs f.field.ty.toks tr "clone_from" ++ paren ("&" :: "mut" :: memberOf "self" f ++ "," :: "&" :: memberOf "source" f)
+        ufcs f.field.ty.toks tr "clone_from" ++ paren ("&" :: "mut" :: memberOf "self" f ++ "," :: "&" :: memberOf "__source" f)
       ["fn", "clone"] ++ paren ["&", "self"] ++ ["->", "Self"] ++ brace (c.name :: ctorArgs src args) ++
-      ["fn", "clone_from"] ++ paren ["&", "mut", "self", ",", "source", ":", "&", "Self"] ++ brace (termBy ";" cfs)
+      ["fn", "clone_from"] ++ paren ["&", "mut", "self", ",", "__source", ":", "&", "Self"] ++ brace (termBy ";" cfs)
     | .enum_ vs =>
       let armsClone := vs.map fun v =>
-        let patL := ctorArgs v.variant.fields (v.fields.map fun f => [f.makeIdent "l"])
+        let patL := ctorArgs v.variant.fields (v.fields.map fun f => [f.makeIdent "__l"])
         let args := ctorArgs v.variant.fields (v.fields.map fun f =>
-          ufcs f.field.ty.toks tr "clone" ++ paren [f.makeIdent "l"])
+          ufcs f.field.ty.toks tr "clone" ++ paren [f.makeIdent "__l"])
         ["Self", "::", v.variant.name] ++ patL ++ ["=>", "Self", "::", v.variant.name] ++ args
       let armsFrom := vs.map fun v =>
-        let patL := ctorArgs v.variant.fields (v.fields.map fun f => [f.makeIdent "l"])
-        let patR := ctorArgs v.variant.fields (v.fields.map fun f => [f.makeIdent "r"])
+        let patL := ctorArgs v.variant.fields (v.fields.map fun f => [f.makeIdent "__l"])
+        let patR := ctorArgs v.variant.fields (v.fields.map fun f => [f.makeIdent "__r"])
         let cfs := v.fields.map fun f =>
-          ufcs f.field.ty.toks tr "clone_from" ++ paren [f.makeIdent "l", ",", f.makeIdent "r"]
+          ufcs f.field.ty.toks tr "clone_from" ++ paren [f.makeIdent "__l", ",", f.makeIdent "__r"]
         paren (["Self", "::", v.variant.name] ++ patL ++ [",", "Self", "::", v.variant.name] ++ patR) ++
           "=>" :: brace (termBy ";" cfs)
       ["fn", "clone"] ++ paren ["&", "self"] ++ ["->", "Self"] ++
         brace (if vs.isEmpty then ["match", "*", "self", "{", "}"] else "match" :: "self" :: brace (termBy "," armsClone)) ++
-      ["fn", "clone_from"] ++ paren ["&", "mut", "self", ",", "source", ":", "&", "Self"] ++
-        brace ("match" :: paren ["self", ",", "source"] ++ brace (termBy "," armsFrom ++
-          paren ["lhs", ",", "rhs"] ++ ["=>", "*", "lhs", "="] ++ ufcs ["Self"] (absPath ["core", "clone", "Clone"]) "clone" ++
-            paren ["rhs"] ++ [","]))
+      ["fn", "clone_from"] ++ paren ["&", "mut", "self", ",", "__source", ":", "&", "Self"] ++
+        brace ("match" :: paren ["self", ",", "__source"] ++ brace (termBy "," armsFrom ++
+          paren ["__lhs", ",", "__rhs"] ++ ["=>", "*", "__lhs", "="] ++ ufcs ["Self"] (absPath ["core", "clone", "Clone"]) "clone" ++
+            paren ["__rhs"] ++ [","]))
   implItem autoDerived c.generics.implToks tr this wheres body
 
 structure CopyImpl where
@@ -222,13 +222,35 @@ structure DebugImpl where
   generics : Generics
   wc : WCB
   body : DebugBody
+  /-- index of the last field if its type can be unsized (it is passed as `&&self.f`) -/
+  unsizedLast : Option Nat := none
 deriving Inhabited
+
+def isMaybeBound : TBound → Bool
+  | .trait q _ _ => q
+  | .lt _ => false
+
+/-- `may_be_unsized`: a slice, `str`, a trait object, or a type parameter declared `?Sized` -/
+def mayBeUnsized (ty : Ty) (g : Generics) : Bool :=
+  match ty with
+  | .slice _ => true
+  | .dynT _ _ => true
+  | .path false [.mk i []] =>
+    i == "str" ||
+    (g.params.any fun | .ty n bs _ => n == i && bs.any isMaybeBound | _ => false) ||
+    (g.wheres.any fun
+      | .ty _ (.path false [.mk j []]) bs => j == i && bs.any isMaybeBound
+      | _ => false)
+  | _ => false
 
 def buildDebugStruct (s : ItemStruct) (e : Entry) (h : HAttrs) (fields : List FieldE) : R DebugImpl := do
   let w := WCB.new s.generics
   let (w, use) := e.pushBoundsToWith h .debug w
   let (x, w) ← debugExpr s.name s.fields fields use w
-  pure { name := s.name, generics := s.generics, wc := w, body := .struct_ x }
+  let unsizedLast := match fields.getLast? with
+    | some f => if mayBeUnsized f.field.ty s.generics then some f.index else none
+    | none => none
+  pure { name := s.name, generics := s.generics, wc := w, body := .struct_ x, unsizedLast }
 
 def buildDebugEnum (en : ItemEnum) (e : Entry) (h : HAttrs) (variants : List VariantE) : R DebugImpl := do
   let w := WCB.new en.generics
@@ -243,9 +265,9 @@ def buildDebugEnum (en : ItemEnum) (e : Entry) (h : HAttrs) (variants : List Var
 def nameLit (t : Tok) : Tok := "\"" ++ unraw t ++ "\""
 
 def DebugExpr.render (toExpr : FieldE → Toks) : DebugExpr → Toks
-  | .transparent f => absPath ["core", "fmt", "Debug", "fmt"] ++ paren (toExpr f ++ [",", "f"])
+  | .transparent f => absPath ["core", "fmt", "Debug", "fmt"] ++ paren (toExpr f ++ [",", "__f"])
   | .builder named ident fields =>
-    ["f", ".", if named then "debug_struct" else "debug_tuple"] ++ paren [nameLit ident] ++
+    ["__f", ".", if named then "debug_struct" else "debug_tuple"] ++ paren [nameLit ident] ++
       (fields.flatMap fun f =>
         if named then [".", "field"] ++ paren (nameLit f.member :: "," :: toExpr f)
         else [".", "field"] ++ paren (toExpr f)) ++
@@ -254,14 +276,15 @@ def DebugExpr.render (toExpr : FieldE → Toks) : DebugExpr → Toks
 def DebugImpl.render (d : DebugImpl) : Toks :=
   let tr := Kind.debug.path
   let body : Toks := match d.body with
-    | .struct_ x => x.render fun f => ["&", "&", "self", ".", f.member]
+    | .struct_ x => x.render fun f =>
+        if d.unsizedLast == some f.index then ["&", "&", "self", ".", f.member] else ["&", "self", ".", f.member]
     | .enum_ arms =>
       if arms.isEmpty then ["match", "*", "self", "{", "}"] else
       "match" :: "self" :: brace (termBy "," (arms.map fun (v, x) =>
-        v.makePat "" ++ "=>" :: x.render fun f => [f.makeIdent ""]))
+        v.makePat "__field" ++ "=>" :: x.render fun f => [f.makeIdent "__field"]))
   implItem autoDerived d.generics.implToks tr (thisTyToks d.name d.generics)
     (d.wc.build fun ty => ty.toks ++ ":" :: tr)
-    (["fn", "fmt"] ++ paren (["&", "self", ",", "f", ":", "&", "mut"] ++ absPath ["core", "fmt", "Formatter"]) ++
+    (["fn", "fmt"] ++ paren (["&", "self", ",", "__f", ":", "&", "mut"] ++ absPath ["core", "fmt", "Formatter"]) ++
       "->" :: absPath ["core", "fmt", "Result"] ++ brace body)
 
 /-! ## Default -/
